@@ -109,6 +109,39 @@ def _wellformed(mesh, name, bad, span=None, chord=None, sym=False, off=None):
             bad.append("random:%s:not_mirror_symmetric" % name)
 
 
+CRM_TYPES = ["CRM", "CRM:jig", "CRM:jig_wind_tunnel", "uCRM_based"] + ["CRM:alpha_%s" % a for a in ("2.50", "2.75", "3.00", "3.25", "3.50", "3.75", "4.00")]
+
+
+def _crm_type_job(wt):
+    """Every documented CRM wing type: the raw station table is ordered (eta and y strictly increasing, positive chords)
+    and the generated meshes are well-formed down to fine spanwise resolutions (a non-monotone table entry only shows
+    once a mesh node falls between the two offending stations)."""
+    from openaerostruct.geometry.CRM_definitions import get_crm_points
+    from openaerostruct.geometry.utils import generate_mesh
+
+    bad = []
+    raw = get_crm_points(wt)
+    if not (np.all(np.diff(raw[:, 0]) > 0) and np.all(np.diff(raw[:, 2]) > 0) and np.all(raw[:, 5] > 0) and np.all(np.isfinite(raw))):
+        bad.append("crm:%s:station_table_not_ordered" % wt)
+    n = 0
+    for ny in (3, 5, 9, 21, 51, 101, 201):
+        for scs in (0.0, 0.5, 1.0):
+            res = {}
+            for sym in (False, True):
+                mesh, tw = generate_mesh({"num_x": 2, "num_y": ny, "wing_type": wt, "symmetry": sym, "span_cos_spacing": scs, "num_twist_cp": 5})
+                res[sym] = mesh
+                n += 1
+                if mesh.shape != (2, (ny + 1) // 2 if sym else ny, 3):
+                    bad.append("crm:%s:shape" % wt)
+                    continue
+                _wellformed(mesh, "crm:%s" % wt, bad, span=None, chord=None, sym=sym, off=np.zeros(3))
+                if not np.all(np.isfinite(tw)):
+                    bad.append("crm:%s:twist_cp" % wt)
+            if res[True].shape[1] == (ny + 1) // 2 and not (float(np.max(np.abs(res[True] - res[False][:, : res[True].shape[1]]))) <= 0.0):
+                bad.append("crm:%s:half_is_not_left_half_of_full" % wt)
+    return {"k": wt, "bad": sorted(set(bad)), "case": {"wing_type": wt, "meshes": n}}
+
+
 def _random_job(k):
     from openaerostruct.geometry.utils import generate_mesh, getFullMesh
 
@@ -122,7 +155,7 @@ def _random_job(k):
     span, chord = float(rng.uniform(2, 60)), float(rng.uniform(0.3, 8))
     base = {"num_x": nx, "num_y": ny, "span_cos_spacing": scs, "chord_cos_spacing": ccs, "offset": off}
     if crm:
-        base.update(wing_type=["CRM", "CRM:jig", "uCRM_based"][k % 3] if False else "CRM", num_twist_cp=int(rng.integers(2, 7)))
+        base.update(wing_type=CRM_TYPES[(k // 3) % len(CRM_TYPES)], num_twist_cp=int(rng.integers(2, 7)))
     else:
         base.update(wing_type="rect", span=span, root_chord=chord)
     bad = []
@@ -222,6 +255,62 @@ def _multi_job(k):
     return {"k": k, "bad": bad, "case": {"sections": ns, "nx": nx, "ny": [int(x) for x in surf["ny"]]}}
 
 
+def _multi_asym_job(k):
+    """Full-span (symmetry off) multi-section surfaces with any root section: sections left and right of the root join with
+    coincident edges, every section has its requested span and taper (tip chord = taper x the chord it starts from), the root
+    chord is the requested one, x increases chordwise and y spanwise, unification reproduces the stitched surface."""
+    from openaerostruct.geometry.geometry_mesh_gen import generate_mesh as gen_multi
+    from openaerostruct.geometry.geometry_unification import unify_mesh
+
+    rng = np.random.default_rng(seed() * 131 + k)
+    ns = int(rng.integers(1, 5))
+    nx = int(rng.integers(2, 5))
+    root = k % ns
+    surf = {
+        "name": "wing",
+        "is_multi_section": True,
+        "num_sections": ns,
+        "sec_name": ["sec%d" % i for i in range(ns)],
+        "symmetry": False,
+        "root_section": root,
+        "S_ref_type": "wetted",
+        "taper": rng.uniform(0.4, 1.0, ns),
+        "span": rng.uniform(0.5, 5.0, ns),
+        "sweep": rng.uniform(-0.3, 0.5, ns) if k % 3 else np.zeros(ns),
+        "root_chord": float(rng.uniform(1, 4)),
+        "ny": rng.integers(2, 7, ns),
+        "nx": nx,
+    }
+    mesh, secm = gen_multi(surf)
+    bad = []
+    scale = float(np.max(np.abs(mesh)))
+    if len(secm) != ns or any(m is None for m in secm):
+        return {"k": k, "bad": ["random:multi_asym:section_missing"], "case": {"sections": ns, "root": root}}
+    for i in range(ns - 1):
+        if not (float(np.max(np.abs(secm[i][:, -1, :] - secm[i + 1][:, 0, :]))) <= 1e-12 * scale):
+            bad.append("random:multi_asym:edges_not_coincident")
+    if not np.all(np.diff(mesh[:, :, 1], axis=1) > 0):
+        bad.append("random:multi_asym:y_not_increasing")
+    if not np.all(np.diff(mesh[:, :, 0], axis=0) > 0):
+        bad.append("random:multi_asym:x_not_increasing")
+    for i in range(ns):
+        if not (abs((secm[i][0, -1, 1] - secm[i][0, 0, 1]) - surf["span"][i]) <= 1e-12 * surf["span"][i]):
+            bad.append("random:multi_asym:section_span")
+        # the chord a section starts from is at its inboard edge: right edge for sections up to the root, left edge beyond it
+        inb, outb = (-1, 0) if i <= root else (0, -1)
+        c_in = secm[i][-1, inb, 0] - secm[i][0, inb, 0]
+        c_out = secm[i][-1, outb, 0] - secm[i][0, outb, 0]
+        if not (abs(c_out - surf["taper"][i] * c_in) <= 1e-12 * surf["root_chord"]):
+            bad.append("random:multi_asym:section_taper")
+    rc = secm[root][-1, -1, 0] - secm[root][0, -1, 0]
+    if not (abs(rc - surf["root_chord"]) <= 1e-12 * surf["root_chord"]) or not (abs(secm[root][0, -1, 1]) <= 1e-13):
+        bad.append("random:multi_asym:root_chord_or_plane")
+    uni = unify_mesh([{"mesh": m} for m in secm])
+    if uni.shape != mesh.shape or not (float(np.max(np.abs(uni - mesh))) <= 1e-12 * scale):
+        bad.append("random:multi_asym:unify_function")
+    return {"k": k, "bad": sorted(set(bad)), "case": {"sections": ns, "root": root, "nx": nx, "ny": [int(x) for x in surf["ny"]], "swept": bool(k % 3)}}
+
+
 def run(tier, only=None):
     warnings.simplefilter("ignore")
     R = Run("C14", tier, "model_checking")
@@ -238,8 +327,16 @@ def run(tier, only=None):
         R.case(["random", r["k"]], True, sample=r["case"] if r["k"] % 41 == 0 else None, section="random")
         for sig in r["bad"]:
             R.violation(sig, {"k": r["k"], "case": r["case"]})
+    for r in check_exc(pmap(_crm_type_job, CRM_TYPES)):
+        R.case(["crm_type", r["k"]], True, sample=r["case"], section="crm_types")
+        for sig in r["bad"]:
+            R.violation(sig, {"wing_type": r["k"], "case": r["case"]})
     for r in check_exc(pmap(_multi_job, range(60 if tier == "quick" else 600))):
         R.case(["multi", r["k"]], True, sample=r["case"] if r["k"] % 29 == 0 else None, section="multi")
+        for sig in r["bad"]:
+            R.violation(sig, {"k": r["k"], "case": r["case"]})
+    for r in check_exc(pmap(_multi_asym_job, range(60 if tier == "quick" else 600))):
+        R.case(["multi_asym", r["k"]], True, sample=r["case"] if r["k"] % 29 == 0 else None, section="multi_asym")
         for sig in r["bad"]:
             R.violation(sig, {"k": r["k"], "case": r["case"]})
     R.assume("uniform spacing is exact in TLC; cosine blends in [0,1] are checked on the code's output (order, extents, symmetry, half/full)", "multi-section: symmetric surfaces (root section last), per-section ny, span, taper, sweep")
